@@ -239,6 +239,9 @@ func runC02(r *ev.Run) {
 	// --- counter edges: long reversible lines (clock beyond 100, full-move numbers)
 	c02CounterEdges(r, judge)
 
+	// --- game histories of great length, through the API at every ply and through one `position startpos moves ...` line
+	r.Set("long_game_plies", c02LongGames(r, judge))
+
 	// --- seed-rotated 4-man classes last (cut by the internal deadline if need be)
 	extra := parseClasses(seedFour(r, 0, 0, 10))
 	r.Set("classes", append(classNames(universe.ThreeMan()), classNames(extra)...))
@@ -386,4 +389,76 @@ func c02CounterEdges(r *ev.Run, judge func(b *board.Board, child *refchess.Pos, 
 			p = child
 		}
 	}
+}
+
+// c02LongGames plays deterministic legal games of a few thousand plies from the start position in which the
+// half-move clock is kept small (a pawn move or a capture is chosen whenever the clock has reached 60, reversible
+// moves otherwise): every successor is judged through the API, and at every 200th ply the whole history is
+// given to a real driver as ONE `position startpos moves ...` line (several kilobytes long).
+func c02LongGames(r *ev.Run, judge func(b *board.Board, child *refchess.Pos, mk func() c02Case)) int64 {
+	var total atomic.Int64
+	plies := ev.Pick(r, 1600, 5000)
+	games := ev.Pick(r, 3, 8)
+	ev.Parallel(games, func(worker, g int) {
+		p := refchess.MustFEN(StartPosFEN)
+		b := eng.Load(&p)
+		var played []string
+		rng := uint64(g)*0x9E3779B97F4A7C15 + uint64(r.Seed) + 1
+		for i := 0; i < plies && !r.Expired(); i++ {
+			var buf [256]refchess.Move
+			lm := p.LegalMoves(buf[:0])
+			if len(lm) == 0 {
+				break
+			}
+			rng = rng*6364136223846793005 + 1442695040888963407
+			start := int((rng >> 33) % uint64(len(lm)))
+			var pick *refchess.Move
+			for pass := 0; pass < 3 && pick == nil; pass++ {
+				for k := range lm {
+					m := lm[(start+k)%len(lm)]
+					piece := p.Sq[m.From]
+					if piece < 0 {
+						piece = -piece
+					}
+					irreversible := piece == refchess.Pawn || p.Sq[m.To] != 0
+					child := p.Make(m)
+					var cb [256]refchess.Move
+					if len(child.LegalMoves(cb[:0])) == 0 {
+						continue // do not end the game
+					}
+					// pass 0: the kind of move the clock asks for, quiet pawn moves before captures; pass 1: any irreversible
+					// move when one is due; pass 2: anything
+					want := p.Half >= 60
+					if pass == 0 && (irreversible != want || (want && p.Sq[m.To] != 0)) {
+						continue
+					}
+					if pass == 1 && irreversible != want {
+						continue
+					}
+					mm := m
+					pick = &mm
+					break
+				}
+			}
+			if pick == nil || p.Half >= 120 {
+				break
+			}
+			child := p.Make(*pick)
+			b.MakeMove(move.Move(pick.Enc()))
+			played = append(played, pick.String())
+			total.Add(1)
+			judge(b, &child, func() c02Case { return c02Case{FEN: StartPosFEN, Moves: append([]string(nil), played...), Via: "api"} })
+			p = child
+			if len(played)%200 == 0 {
+				out, _ := runDriver("position startpos moves "+strings.Join(played, " ")+"\nfen\n", nullSearch{})
+				n := p.Normalized()
+				if got, want := strings.TrimRight(out, "\n"), n.FEN(); got != want {
+					r.Fail("uci/long-history/"+c02Classify(got, want, &n), c02Case{FEN: StartPosFEN, Moves: append([]string(nil), played...), Via: "uci"},
+						"position startpos with %d moves in one line (%d bytes): driver %q, rules %q", len(played), 6*len(played), got, want)
+					return
+				}
+			}
+		}
+	})
+	return total.Load()
 }
